@@ -1,0 +1,40 @@
+//go:build verif
+
+// Contracts for package hotstuffpb, checked by /verif/govc (comment-only file).
+// Decoding of wire messages: no precondition at all (every pointer may be nil, every byte
+// slice may have any length, every oneof may be unset), the obligation is that nothing panics.
+package hotstuffpb
+
+// What the protobuf decoder produces: oneof wrapper objects and the elements of repeated
+// message fields are never nil (everything else may be absent).
+//@ pred wiresig(s *QuorumSignature) = (istype(s.Sig, *QuorumSignature_ECDSASigs) ==> as(s.Sig, *QuorumSignature_ECDSASigs) != nil && (as(s.Sig, *QuorumSignature_ECDSASigs).ECDSASigs != nil ==> (forall i int :: {as(s.Sig, *QuorumSignature_ECDSASigs).ECDSASigs.Sigs[i]} 0 <= i && i < len(as(s.Sig, *QuorumSignature_ECDSASigs).ECDSASigs.Sigs) ==> as(s.Sig, *QuorumSignature_ECDSASigs).ECDSASigs.Sigs[i] != nil))) && (istype(s.Sig, *QuorumSignature_EDDSASigs) ==> as(s.Sig, *QuorumSignature_EDDSASigs) != nil && (as(s.Sig, *QuorumSignature_EDDSASigs).EDDSASigs != nil ==> (forall i int :: {as(s.Sig, *QuorumSignature_EDDSASigs).EDDSASigs.Sigs[i]} 0 <= i && i < len(as(s.Sig, *QuorumSignature_EDDSASigs).EDDSASigs.Sigs) ==> as(s.Sig, *QuorumSignature_EDDSASigs).EDDSASigs.Sigs[i] != nil))) && (istype(s.Sig, *QuorumSignature_BLS12Sig) ==> as(s.Sig, *QuorumSignature_BLS12Sig) != nil)
+//@ pred wireheap() = forall s *QuorumSignature :: s != nil ==> wiresig(s)
+
+//@ func QuorumSignatureFromProto property C10
+//@   mode bytebv
+//@   requires wireheap()
+//@   modifies alloc
+//@ func PartialCertFromProto property C10
+//@   requires wireheap()
+//@   modifies alloc
+//@ func QuorumCertFromProto property C10
+//@   requires wireheap()
+//@   modifies alloc
+//@ func TimeoutCertFromProto property C10
+//@   requires wireheap()
+//@   modifies alloc
+//@ func AggregateQCFromProto property C10
+//@   requires wireheap()
+//@   modifies alloc
+//@ func SyncInfoFromProto property C10
+//@   requires wireheap()
+//@   modifies alloc
+//@ func TimeoutMsgFromProto property C10
+//@   requires wireheap()
+//@   modifies alloc
+//@ func BlockFromProto property C10
+//@   requires wireheap()
+//@   modifies alloc
+//@ func ProposalFromProto property C10
+//@   requires wireheap()
+//@   modifies alloc
